@@ -508,6 +508,9 @@ def configurator_spec(draw, min_items=3, max_items=7, max_rules=4, explicit_p=60
     """{"k": "Stingy", "id": ..., "c": [rules]} over boolean items"""
     n_items = draw(st.integers(min_items, max_items))
     items = BOOL_IDS[:n_items]
+    if draw(st.integers(0, 7)) == 0:
+        # item names that only a normalisation would merge (surrounding blanks, case, a tab, another unicode composition)
+        items = (["a", "a ", " a", "A", "b", "b\t", "\u00e5", "a\u030a"])[:n_items]
     counter = [0]
 
     def new_id():
